@@ -14,7 +14,7 @@ PROPS = {
     'C13': ['contracts.m2_client', 'contracts.m2_posthandshake', 'contracts.m2_server', 'contracts.small_extras', 'contracts.m2_binders'],
     'C09': ['contracts.kdf', 'contracts.ciphers'],
     'C15': ['contracts.codec', 'contracts.messages_simple'],
-    'C08': ['contracts.codec', 'contracts.messages_simple', 'contracts.m2_recordlayer', 'contracts.m2_getmsg', 'contracts.m2_posthandshake', 'contracts.m2_recordio', 'contracts.m2_server', 'contracts.transport', 'contracts.m2_parse_safety'],
+    'C08': ['contracts.codec', 'contracts.messages_simple', 'contracts.m2_recordlayer', 'contracts.m2_getmsg', 'contracts.m2_posthandshake', 'contracts.m2_recordio', 'contracts.m2_server', 'contracts.transport', 'contracts.m2_parse_safety', 'contracts.m2_decompress'],
     'C14': ['contracts.m2_recordlayer', 'contracts.m2_getmsg', 'contracts.defragmenter', 'contracts.transport', 'contracts.m2_asyncsm'],
     'C16': ['contracts.m2_recordlayer', 'contracts.m2_getmsg', 'contracts.m2_posthandshake', 'contracts.sendmsg'],
     'C17': ['contracts.m2_recordlayer', 'contracts.m2_getmsg', 'contracts.m2_posthandshake', 'contracts.transport'],
